@@ -1,5 +1,6 @@
 SPECIFICATION Spec
 CONSTANTS
+  MintLower = "MINT"
   Accounts = {"a1","a2","a3","a4","a5","a6","a7","a8"}
   Thorough = FALSE
 INVARIANTS RoundTrip NoOverwrite ExportImport
